@@ -26,7 +26,7 @@ import translate  # noqa: E402
 def cstr(s):
     if not isinstance(s, str):
         raise TypeError(s)
-    if any(ord(c) > 126 or ord(c) < 32 for c in s):
+    if any((ord(c) > 126 or ord(c) < 32) and c != '\n' for c in s):      # a raw newline is fine inside a Coq string literal
         raise ValueError('non-printable / non-ascii string in a Coq literal: %r' % s)
     return '"%s"' % s.replace('"', '""')
 
